@@ -58,8 +58,11 @@ func c08Run(rc *simrt.RunCtx) {
 		pendingBefore knKey
 		hasPending    bool
 	}
-	dA := &dir{name: "initiator->responder", w: s.cli.conn.noise, r: s.srv.conn.noise, wc: s.ca, rc: s.cb, total: nA, seenKN: map[knKey]int{}, seenCT: map[string]int{}}
-	dB := &dir{name: "responder->initiator", w: s.srv.conn.noise, r: s.cli.conn.noise, wc: s.cb, rc: s.ca, total: nB, seenKN: map[knKey]int{}, seenCT: map[string]int{}}
+	// (key, nonce) pairs and ciphertexts are remembered across both
+	// directions: the two directions must not share a key stream either
+	allKN, allCT := map[knKey]int{}, map[string]int{}
+	dA := &dir{name: "initiator->responder", w: s.cli.conn.noise, r: s.srv.conn.noise, wc: s.ca, rc: s.cb, total: nA, seenKN: allKN, seenCT: allCT}
+	dB := &dir{name: "responder->initiator", w: s.srv.conn.noise, r: s.cli.conn.noise, wc: s.cb, rc: s.ca, total: nB, seenKN: allKN, seenCT: allCT}
 	dA.firstSg, dB.firstSg = s.ca.out.segCount(), s.cb.out.segCount()
 	fixedPlain := marker(99, 48)
 	plain := func(d *dir, i int) []byte {
@@ -108,7 +111,7 @@ func c08Run(rc *simrt.RunCtx) {
 			return false
 		}
 		if j, dup := d.seenCT[string(ct)]; dup {
-			rc.Violate("c08.ciphertext-repeat", "equal-ciphertext", "%s: records %d and %d have identical ciphertext (%d bytes)", d.name, j, d.written, len(ct))
+			rc.Violate("c08.ciphertext-repeat", "equal-ciphertext", "%s: its record %d has the same ciphertext (%d bytes) as record %d written earlier in this or the other direction", d.name, d.written, len(ct), j)
 			return false
 		}
 		if len(ct) < 200 || d.written%50 == 0 {
@@ -132,7 +135,7 @@ func c08Run(rc *simrt.RunCtx) {
 			p := plain(d, d.written)
 			before := knKey{d.w.sendCipher.secretKey, d.w.sendCipher.nonce}
 			if j, dup := d.seenKN[before]; dup {
-				rc.Violate("c08.nonce-reuse", "key-nonce-repeated", "%s: record %d is encrypted starting from the same (key, nonce=%d) pair as record %d", d.name, d.written, before.nonce, j)
+				rc.Violate("c08.nonce-reuse", "key-nonce-repeated", "%s: record %d is encrypted starting from the same (key, nonce=%d) pair as record %d of this or the other direction", d.name, d.written, before.nonce, j)
 				return false
 			}
 			d.seenKN[before] = d.written
